@@ -33,7 +33,8 @@ RULE = ("random histories: 1-3 sources (file, inline, loader, remote via stubbed
         "requests.get) x random documents (1-6 entities, repeated ids, any mix of roles, 0-4 endpoints per service "
         "and binding, key use signing/encryption/absent, validUntil around now, protocol lists with/without SAML 2.0, "
         "entity attributes, registration info, requested attributes) x signature state x certificate configured or "
-        "not; load, reload with the k-th source failing (missing, malformed, bad signature, HTTP error, too old), MDQ "
+        "not; load, reload with the k-th source failing (missing, malformed, bad signature, HTTP error status with or "
+        "without a loadable body, too old), MDQ "
         "fetch / refresh sequences under the virtual clock; after every mutating step every observation point is "
         "queried for every entity of the scenario; non-trivial = case in which at least one lookup finds an entity; "
         "distinct = distinct case JSON")
@@ -330,7 +331,10 @@ class G:
             c = r.randrange(20)
             fail = "unavailable" if c == 0 else "malformed" if c == 1 else None
         if fail == "unavailable" and kind != "inline":
-            return {"t": "unavailable", "how": r.choice(["404", "500"]) if kind in ("remote", "mdq") else "missing"}
+            f = {"t": "unavailable", "how": r.choice(["404", "500", "503"]) if kind in ("remote", "mdq") else "missing"}
+            if kind == "remote" and r.random() < 0.7:
+                f["body_doc"] = self.doc(now)  # an error status whose body is perfectly good metadata
+            return f
         if fail in ("malformed", "unavailable"):
             return {"t": "malformed", "text": r.choice(["<md:EntitiesDescriptor", "", "not xml at all <<", "<a><b></a>"])}
         return {"t": "doc", "doc": self.doc(now)}
@@ -584,9 +588,19 @@ def _mdq_answers(self, now, sps):
             if c < 2:
                 continue  # 404 (no entry = unavailable)
             if c == 2:
-                out.append({"src": key, "eid": eid, "fetch": {"t": "unavailable", "how": "500"}})
+                f = {"t": "unavailable", "how": r.choice(["500", "404", "503"])}
+                if r.random() < 0.7:
+                    f["body_doc"] = self.doc(now, single=True, eids=[eid])
+                    f["body_doc"]["sig"] = "valid"
+                out.append({"src": key, "eid": eid, "fetch": f})
             elif c == 3:
                 out.append({"src": key, "eid": eid, "fetch": {"t": "malformed", "text": "<broken"}})
+            elif c == 4 and not self.mdq_cert.get(key):
+                # an (unsigned) EntitiesDescriptor as MDQ answer: repeated / expired occurrences of the entity,
+                # possibly past the group's own validUntil
+                d = self.doc(now, single=False, eids=[eid])
+                d["sig"] = "unsigned"
+                out.append({"src": key, "eid": eid, "fetch": {"t": "doc", "doc": d}})
             else:
                 d = self.doc(now, single=True, eids=[eid])
                 out.append({"src": key, "eid": eid, "fetch": {"t": "doc", "doc": d}})
@@ -626,7 +640,8 @@ def _content(f):
         return 200, doc_xml(f["doc"]).encode("utf-8")
     if f["t"] == "malformed":
         return 200, f.get("text", "<broken").encode("utf-8")
-    return int(f.get("how", "404")) if f.get("how", "404").isdigit() else 404, b""
+    status = int(f.get("how", "404")) if f.get("how", "404").isdigit() else 404
+    return status, (doc_xml(f["body_doc"]).encode("utf-8") if f.get("body_doc") else b"")
 
 
 class _Requests:
